@@ -8,7 +8,9 @@ be renamed without changing the public interface or the generated data:
   * a function's signature together with the place it is called from (`&str -> Option<usize>` under the
     Nickname mapping is the scan that finds the first space to fix);
   * for the table predicates of precis-core: the set of generated table statics the function consults
-    (`is_letter_digit` is the `u32 -> bool` that reads exactly the seven general-category tables).
+    (`is_letter_digit` is the `u32 -> bool` that reads exactly the seven general-category tables);
+  * for a generated table static: its name (a string in build.rs) — the module that include!s the generated file
+    may change.
 
 When the canonical path is missing and exactly one function fills the role, the facts are rewritten so
 that the function carries its canonical path (Program(...).renamed records canonical -> actual, and every
@@ -50,6 +52,7 @@ class _View:
     def __init__(self, prog):
         self.prog = prog
         self._st = {}
+        self.static_alias = {}
 
     def fn(self, key):
         return self.prog.fns.get(key)
@@ -82,7 +85,7 @@ class _View:
             s = set()
             for b in self.family(key):
                 _statics_in(b.blocks, s)
-            self._st[key] = s
+            self._st[key] = {self.static_alias.get(x, x) for x in s}
         return self._st[key]
 
     def sig(self, key, inputs, output):
@@ -100,6 +103,25 @@ def discover(prog):
     v = _View(prog)
     found, unresolved = {}, []
     taken = set()
+
+    # --- generated table statics: the name (a string in build.rs) is the anchor; the module that include!s the
+    # generated file is not
+    try:
+        from spec import tables_spec as ts
+
+        table_paths = list(ts.TABLES) + [ts.C + "EXCEPTIONS", ts.C + "BACKWARD_COMPATIBLE"]
+    except Exception:  # pragma: no cover
+        table_paths = []
+    for canon in table_paths:
+        if canon in prog.statics:
+            continue
+        crate, last = canon.split("::", 1)[0], canon.rsplit("::", 1)[1]
+        cands = [k for k, s_ in prog.statics.items() if s_.get("crate") == crate and k.rsplit("::", 1)[1] == last and k not in table_paths]
+        if len(cands) == 1:
+            found[canon] = cands[0]
+            v.static_alias[cands[0]] = canon
+        else:
+            unresolved.append((canon, "table static: %d statics of %s are called %s" % (len(cands), crate, last)))
 
     def have(canon):
         return canon in prog.bodies and not prog.bodies[canon].ext
